@@ -1545,6 +1545,9 @@ class Fxp():
         # return Fxp(self.val[index], like=self, raw=True)
         y = Fxp(like=self)
         y.val = self.val[index]
+        if not isinstance(y.val, (np.ndarray, np.generic)):
+            # an element of an object array (extended precision) is a bare Python int: keep the array interface
+            y.val = np.array(y.val, dtype=object)
         return y
 
     def __setitem__(self, index, value):
